@@ -1,7 +1,39 @@
 import FormulaeModel.Driver.Base
+import FormulaeModel.Driver.C04
+import FormulaeModel.Spec.C15
 namespace FormulaeModel.Driver.C15
-open Lean FormulaeModel FormulaeModel.Driver
+open Lean FormulaeModel FormulaeModel.Driver FormulaeModel.Design FormulaeModel.Driver.C04
 
-def handle (_op : String) (_j : Json) : Option Json := none
+/-- Spec.C15 on the response matrix the implementation returned -/
+def handle (op : String) (j : Json) : Option Json :=
+  match op with
+  | "c15_spec" =>
+    match Scanner.scan (getStr j "formula").toList with
+    | .error _ => some (errJ "scan")
+    | .ok ts =>
+      match Parser.parse Generated.parserTable ts with
+      | .error _ => some (errJ "parse")
+      | .ok e =>
+        let resp : Option Expr := match e with
+          | .binary l op _ => if op.kind == .TILDE then some l else none
+          | _ => none
+        match resp with
+        | none => some (Json.mkObj [("has_response", false)])
+        | some r =>
+          let frame := frameOfJson ((j.getObjVal? "frame").toOption.getD Json.null)
+          let names := namesOfJson ((j.getObjVal? "names").toOption.getD Json.null)
+          let env : Env := { frame, names }
+          match Spec.C15.expected env r with
+          | .error er => some (errTag er)
+          | .ok ex =>
+            let m := matrixOfJson ((j.getObjVal? "matrix").toOption.getD Json.null)
+            let levels := match j.getObjVal? "levels" with
+              | .ok (.arr a) => some (a.toList.filterMap (fun x => match x with | .str s => some s | _ => none))
+              | _ => none
+            some (Json.mkObj [("has_response", true),
+                              ("holds", Spec.C15.holds ex m levels (getStr j "kind")),
+                              ("expected_levels", match ex.levels with | some l => jStrs l | none => Json.null),
+                              ("expected_kind", ex.kind)])
+  | _ => none
 
 end FormulaeModel.Driver.C15
